@@ -87,10 +87,27 @@ GANTT_LINE = re.compile(r'^\s*(?P<name>[^:]*): (?P<state>(?:milestone,|done,|act
 HEADER = re.compile(r'^\s*(gantt|dateFormat .*|title .*|excludes weekends|tickInterval .*)\s*$')
 
 
+MERMAID_TOKENS = [('YYYY', '%Y'), ('MM', '%m'), ('DD', '%d'), ('HH', '%H'), ('mm', '%M'), ('ss', '%S')]
+
+
+def mermaid_format(header_fmt):
+    """strptime format for a Mermaid dateFormat such as 'DD.MM.YYYY HH:mm' or 'YYYY-MM-DD HH:mm'."""
+    out = header_fmt.strip()
+    for tok, py in MERMAID_TOKENS:
+        out = out.replace(tok, py)
+    return out
+
+
 def parse_gantt(src):
-    """Returns (entries, problems). entries: list of dict(id, state, start, end, section, name)."""
+    """Returns (entries, problems). entries: list of dict(id, state, start, end, section, name); start / end are the texts of the
+    line and, as 'start_dt' / 'end_dt', the instants they denote under the chart's own dateFormat header."""
     entries, problems = [], []
     section = None
+    fmt = '%d.%m.%Y %H:%M'
+    for ln in src.split('\n'):
+        m = re.match(r'^\s*dateFormat\s+(.*\S)\s*$', ln)
+        if m:
+            fmt = mermaid_format(m.group(1))
     for ln in src.split('\n'):
         if not ln.strip():
             continue
@@ -100,7 +117,7 @@ def parse_gantt(src):
         if m:
             section = m.group(1)
             continue
-        e = parse_gantt_task(ln)
+        e = parse_gantt_task(ln, fmt)
         if e is not None:
             e['section'] = section
             entries.append(e)
@@ -110,12 +127,12 @@ def parse_gantt(src):
 
 
 GANTT_TAGS = {'done', 'active', 'crit', 'milestone'}
-GANTT_DATE = re.compile(r'^\d\d\.\d\d\.\d{4} \d\d:\d\d$')
 
 
-def parse_gantt_task(ln):
+def parse_gantt_task(ln, fmt='%d.%m.%Y %H:%M'):
     """A task line as Mermaid reads it: title up to the first colon, then comma-separated metadata (blanks around the items
-    do not matter): any of the tags done / active / crit / milestone, then the id, the start and the end."""
+    do not matter): any of the tags done / active / crit / milestone, then the id (behind the prefix that makes it a valid Mermaid
+    identifier, `id_` today), the start and the end in the chart's dateFormat."""
     m = re.match(r'^\s*([^:]*):(.*)$', ln)
     if not m:
         return None
@@ -124,40 +141,60 @@ def parse_gantt_task(ln):
     while items and items[0] in GANTT_TAGS:
         tags.append(items.pop(0))
     if len(items) != 3:
+        # the dates may contain a colon, the first one ends the title: re-join what the split on ':' cannot have broken (nothing)
         return None
-    mi = re.match(r'^id_(-?\w+)$', items[0])
-    if not mi or not GANTT_DATE.match(items[1]) or not GANTT_DATE.match(items[2]):
+    mi = re.match(r'^(?:[A-Za-z]+_)?(-?\w+)$', items[0])
+    if not mi:
+        return None
+    try:
+        sdt, edt = datetime.strptime(items[1], fmt), datetime.strptime(items[2], fmt)
+    except ValueError:
         return None
     return {'name': m.group(1), 'state': 'milestone,' if 'milestone' in tags else '', 'tags': tuple(tags), 'id': mi.group(1),
-            'start': items[1], 'end': items[2]}
+            'start': items[1], 'end': items[2], 'start_dt': sdt, 'end_dt': edt}
 
 
 def parse_network(src):
-    """Flowchart tokenisation: node = id{{text}} with text ending at the first '}}', or 0((Start))."""
+    """Flowchart tokenisation: a node is `id{{text}}` (text ending at the first '}}'), `0((Start))`, or a bare id; a line is an
+    edge `node --> node` or the declaration of one node; styling statements and comments are skipped."""
     edges, problems, styles = [], [], 0
     lines = [l for l in src.split('\n') if l.strip()]
     if not lines or lines[0].strip() != 'flowchart LR':
         problems.append('missing header')
+
+    def node(s):
+        if s.startswith('0((Start))'):
+            return '0', s[len('0((Start))'):]
+        m = re.match(r'^(-?\w+)\{\{', s)
+        if m:
+            rest = s[m.end():]
+            if rest.startswith('"'):
+                # a quoted label ends at the closing quote (Mermaid reads '}}' inside quotes as text)
+                q = rest.find('"', 1)
+                if q >= 0 and rest[q + 1:q + 3] == '}}':
+                    return m.group(1), rest[q + 3:]
+            k = rest.find('}}')
+            if k < 0:
+                return None, s
+            return m.group(1), rest[k + 2:]
+        m = re.match(r'^(-?\w+)(?=\s|$)', s)
+        if m:
+            return m.group(1), s[m.end():]
+        return None, s
+
     for ln in lines[1:]:
         s = ln.strip()
         if s.startswith(('style ', 'classDef ', 'class ', 'linkStyle ', 'click ', '%%')):
             # styling statements and comments are no edges (the statement counts edges only)
             styles += 1
             continue
-
-        def node(s):
-            if s.startswith('0((Start))'):
-                return '0', s[len('0((Start))'):]
-            m = re.match(r'^(-?\w+)\{\{', s)
-            if not m:
-                return None, s
-            rest = s[m.end():]
-            k = rest.find('}}')
-            if k < 0:
-                return None, s
-            return m.group(1), rest[k + 2:]
         a, rest = node(s)
-        if a is None or not rest.startswith(' --> '):
+        if a is None:
+            problems.append(ln)
+            continue
+        if not rest.strip():
+            continue  # a node declared on its own line: no edge
+        if not rest.startswith(' --> '):
             problems.append(ln)
             continue
         b, rest2 = node(rest[5:])
@@ -169,18 +206,33 @@ def parse_network(src):
 
 
 def extract_dhtmlx(doc):
+    """The embedded JSON document: the literal argument of gantt.parse(...) or, where the page keeps its data in a JSON data
+    block (<script type="application/json">) and parses that, the content of the block that holds the task entries."""
+    err = None
     for s in doc.scripts:
         k = s.find('gantt.parse(')
         if k >= 0:
             body = s[k + len('gantt.parse('):]
             e = body.rfind(');')
             if e < 0:
-                return None, 'no closing );'
+                err = 'no closing );'
+                continue
             try:
                 return json.loads(body[:e]), None
             except ValueError as ex:
-                return None, 'JSON error: ' + str(ex)[:80]
-    return None, 'gantt.parse( not found in any script element'
+                err = 'JSON error: ' + str(ex)[:80]
+    blocks = 0
+    for s in doc.scripts:
+        t = s.strip()
+        if t and t[0] in '{[':
+            blocks += 1
+            try:
+                d = json.loads(t)
+            except ValueError as ex:
+                return None, 'JSON error in a data block: ' + str(ex)[:80]
+            if isinstance(d, dict) and 'data' in d:
+                return d, None
+    return None, err or 'gantt.parse( not found in any script element'
 
 
 def shapes(tier):
@@ -311,7 +363,7 @@ def verify(kind, tasks, deps, an, adv_id, V, clock):
         multi = len(set(secs.values())) > 1
         for e in ent:
             t = next(t for t in tasks if str(t.id) == e['id'])
-            if e['start'] != t.start.strftime('%d.%m.%Y %H:%M') or e['end'] != t.end.strftime('%d.%m.%Y %H:%M'):
+            if e['start_dt'] != t.start.replace(second=0, microsecond=0) or e['end_dt'] != t.end.replace(second=0, microsecond=0):
                 V('gantt/dates-wrong', f'task {t.id}: line has {e["start"]} - {e["end"]}, task {t.start} - {t.end}')
             if (e['state'] == 'milestone,') != bool(t.milestone):
                 V('gantt/milestone-flag-wrong', f'task {t.id}: state {e["state"]!r}, milestone={t.milestone}')
